@@ -8,6 +8,144 @@ use std::collections::BTreeSet;
 use std::fmt::Write as _;
 use std::panic::{catch_unwind, AssertUnwindSafe};
 
+thread_local! {
+    static LAST_PANIC: std::cell::RefCell<String> = std::cell::RefCell::new(String::new());
+}
+
+/// `file:line` of the last panic raised on the calling thread (empty if none)
+pub fn last_panic_location() -> String {
+    LAST_PANIC.with(|c| c.borrow().clone())
+}
+
+/// One-line text of a panic payload
+pub fn panic_text(e: &(dyn std::any::Any + Send)) -> String {
+    if let Some(s) = e.downcast_ref::<&str>() {
+        s.to_string()
+    } else if let Some(s) = e.downcast_ref::<String>() {
+        s.clone()
+    } else {
+        "panic".to_string()
+    }
+}
+
+/// Single-edit damage of a text file (C19). `kind`: 0 line deleted, 1 line duplicated, 2 file truncated before the
+/// line, 3 first number of the line replaced by text, 4 by a value no f32 / no index can hold, 5 by a negative
+/// integer, 6 the block that starts on the line removed (up to the line closing it with `..`), 7 the first quoted
+/// name on the right-hand side renamed. None when the edit does not apply to the line.
+pub const DAMAGE_KINDS: [&str; 8] = ["line deleted", "line duplicated", "truncated before line", "number -> text", "number -> 1e39", "number -> -7", "block removed", "reference renamed"];
+
+pub fn damage(text: &str, line: usize, kind: usize) -> Option<String> {
+    let lines: Vec<&str> = text.split_inclusive('\n').collect();
+    if line >= lines.len() {
+        return None;
+    }
+    let l = lines[line];
+    let join = |v: Vec<&str>| v.concat();
+    let number_span = |l: &str| -> Option<(usize, usize)> {
+        // first numeric token that is not part of a name: preceded by start / blank / '=' / '(' / ',' / ';' / '>' / tab
+        let b = l.as_bytes();
+        let mut i = 0;
+        while i < b.len() {
+            let startable = i == 0 || matches!(b[i - 1], b' ' | b'=' | b'(' | b',' | b';' | b'>' | b'\t');
+            if startable && (b[i].is_ascii_digit() || ((b[i] == b'-' || b[i] == b'.') && i + 1 < b.len() && b[i + 1].is_ascii_digit())) {
+                let mut j = i + 1;
+                while j < b.len() && (b[j].is_ascii_digit() || matches!(b[j], b'.' | b'e' | b'E' | b'-' | b'+')) {
+                    j += 1;
+                }
+                // not a prefix of an identifier such as 3D or 12_name
+                if j >= b.len() || !(b[j].is_ascii_alphabetic() || b[j] == b'_') {
+                    return Some((i, j));
+                }
+                i = j;
+            }
+            i += 1;
+        }
+        None
+    };
+    match kind {
+        0 => {
+            let mut v = lines.clone();
+            v.remove(line);
+            Some(join(v))
+        }
+        1 => {
+            let mut v = lines.clone();
+            v.insert(line, l);
+            Some(join(v))
+        }
+        2 => Some(join(lines[..line].to_vec())),
+        3 | 4 | 5 => {
+            // inside a quoted string a number is part of a name, not a number
+            if l.contains('"') && l.find('"') < number_span(l).map(|s| s.0) {
+                return None;
+            }
+            let (a, b) = number_span(l)?;
+            let new = ["abc", "1e39", "-7"][kind - 3];
+            let nl = format!("{}{}{}", &l[..a], new, &l[b..]);
+            let mut v = lines.clone();
+            v[line] = &nl;
+            Some(v.concat())
+        }
+        6 => {
+            let t = l.trim_start();
+            if !(t.starts_with('"') && t.contains("\" =")) {
+                return None;
+            }
+            let mut end = line;
+            while end < lines.len() && !lines[end].trim_end().ends_with("..") {
+                end += 1;
+            }
+            if end >= lines.len() {
+                return None;
+            }
+            let mut v = lines[..line].to_vec();
+            v.extend_from_slice(&lines[end + 1..]);
+            Some(join(v))
+        }
+        7 => {
+            let eq = l.find('=')?;
+            let q1 = eq + l[eq..].find('"')?;
+            let q2 = q1 + 1 + l[q1 + 1..].find('"')?;
+            if q2 == q1 + 1 {
+                return None;
+            }
+            let nl = format!("{}_x{}", &l[..q2], &l[q2..]);
+            let mut v = lines.clone();
+            v[line] = &nl;
+            Some(v.concat())
+        }
+        _ => None,
+    }
+}
+
+/// stable identity of a crash site: source file of the panic and its message with names / numbers blanked
+pub fn crash_site(msg: &str, loc: &str) -> String {
+    let file = loc.rsplit_once(':').map(|x| x.0).unwrap_or(loc);
+    let file = file.rsplit_once("/repo/").map(|x| x.1).unwrap_or(file);
+    // the generic part of the message (up to the first colon: no payload), names and numbers blanked
+    let head = msg.split(": ").next().unwrap_or(msg);
+    let mut m = String::new();
+    let mut in_q = false;
+    for ch in head.chars().take(80) {
+        if ch == '`' {
+        } else if ch == '"' || ch == '\'' {
+            in_q = !in_q;
+            m.push('"');
+        } else if in_q {
+        } else if ch.is_ascii_digit() {
+            if !m.ends_with('#') {
+                m.push('#');
+            }
+        } else if ch == '\n' {
+            m.push(' ');
+        } else {
+            m.push(ch);
+        }
+    }
+    format!("{}:{}", file, m.trim().replace(' ', "_"))
+}
+
+
 pub struct Failure {
     pub clause: String,
     pub case: Vec<usize>,
@@ -132,7 +270,8 @@ impl Ctx {
         }
         if !ok {
             self.n_failures += 1;
-            if self.failures.len() < 25 {
+            // keep a few failures of every clause (a frequent failure must not hide a different one)
+            if self.failures.len() < 40 && self.failures.iter().filter(|f| f.clause == clause).count() < 6 {
                 let d = format!("{} | case: {}", detail(), self.case_note);
                 self.failures.push(Failure { clause: clause.to_string(), case: self.case(), detail: d });
             }
@@ -218,7 +357,11 @@ pub fn drive(ob: &str, scope: &str, f: impl Fn(&mut Ctx) + Sync) {
     let progress = std::env::var("VERIF_PROGRESS").ok();
 
     // silence the default panic printer: panics of the code under contract are recorded as failures
-    std::panic::set_hook(Box::new(|_| {}));
+    // ... and remember where the last panic of each thread happened (source file only: line numbers move)
+    std::panic::set_hook(Box::new(|info| {
+        let loc = info.location().map(|l| format!("{}:{}", l.file(), l.line())).unwrap_or_default();
+        LAST_PANIC.with(|c| *c.borrow_mut() = loc);
+    }));
 
     let worker = |w: usize| -> (Ctx, usize, bool) {
         let mut ctx = Ctx::new(thorough);
@@ -315,7 +458,7 @@ pub fn drive(ob: &str, scope: &str, f: impl Fn(&mut Ctx) + Sync) {
             }
         }
         for fl in ctx.failures {
-            if failures.len() < 25 {
+            if failures.len() < 40 && failures.iter().filter(|f| f.clause == fl.clause).count() < 6 {
                 failures.push(fl);
             }
         }
